@@ -72,6 +72,9 @@ func (fc *FnCtx) lookup(fr *Frame, st *State, reach string, t *ssa.Lookup) Val {
 	v := fc.mapGet(st, x, k)
 	fc.sc.assume(tImp(has, fc.typeInv(st, v)))
 	v = fc.nameVal(fc.mergeVal(has, v, zeroVal(mt.Elem())), "mv")
+	if v.K == KAddr && len(fc.eng.structInvs) > 0 && fc.quiet == 0 {
+		fc.assumeStructInv(st, v) // (guarded by "pointer is non-nil" inside)
+	}
 	if t.CommaOk {
 		return Val{K: KTuple, T: t.Type(), Fs: []Val{v, boolVal(has)}}
 	}
